@@ -2,6 +2,7 @@ package c15
 
 import (
 	"context"
+	"encoding/json"
 	"errors"
 	"fmt"
 	"io"
@@ -15,6 +16,7 @@ import (
 	"github.com/samsarahq/thunder/batch"
 	"github.com/samsarahq/thunder/federation"
 	"github.com/samsarahq/thunder/graphql"
+	"github.com/samsarahq/thunder/reactive"
 	"github.com/samsarahq/thunder/thunderpb"
 	"github.com/samsarahq/thunder/verifharness/vlib"
 )
@@ -367,9 +369,159 @@ func runM4(run *vlib.Run) {
 			m4Scenario{Target: "gateway", Point: "sibling_failed", K: k, Behaviour: "block", Forward: false},
 			m4Scenario{Target: "gateway", Point: "sibling_failed", K: k, Behaviour: "block", Forward: true})
 	}
+	// no cancellation at all: a fetch shared through reactive.Cache panics inside
+	// the cache's compute function (or an Expensive resolver panics under a key
+	// that a second place of the request uses too). The request must fail with
+	// an error and return; nothing may stay parked.
+	for _, t := range []string{"http", "fedserver", "rerunner_execute"} {
+		for _, pl := range []string{"cache_shared", "cache_shared_aliases", "cache_shared_expensive", "expensive_same_key"} {
+			scs = append(scs, m4Scenario{Target: t, Point: "panic_in_shared_cache", Behaviour: pl})
+		}
+	}
 	run.Set("m4_scenarios", len(scs))
-	section(run, offM4, len(scs), 1, func(k int) { env.runScenario(run, offM4+k, scs[k]) })
+	section(run, offM4, len(scs), 1, func(k int) {
+		if scs[k].Point == "panic_in_shared_cache" {
+			env.runPanicScenario(run, offM4+k, scs[k])
+			return
+		}
+		env.runScenario(run, offM4+k, scs[k])
+	})
 	m4Current.Store((*m4Ctl)(nil))
+}
+
+// runPanicScenario: entry points other than the websocket with a resolver
+// that panics under a cache key the same request uses twice.
+func (e *m4Env) runPanicScenario(run *vlib.Run, caseIdx int, sc m4Scenario) {
+	fmt.Println("CASE", caseIdx, "m4", sc.String())
+	run.Case("m4|"+sc.String(), true)
+	run.Count("m4:scenarios", 1)
+	run.Count("m4:target:"+sc.Target, 1)
+	run.Count("m4:point:"+sc.Point, 1)
+	m4Current.Store((*m4Ctl)(nil))
+
+	st := &m3State{res: reactive.NewResource(), kind: []string{"string", "runtime_nil", "error"}[caseIdx%3], placement: sc.Behaviour, version: 1, armed: -1, single: &Row{Id: 7}}
+	schema := buildM3Schema(st)
+	query := m3Query(sc.Behaviour)
+	base := append(goroutineIDs(), e.ignore...)
+	ctx, cancel := context.WithCancel(context.Background())
+	defer cancel()
+	var failed int32 // 1 = the call reported an error, as it must
+	var detail atomic.Value
+	var f func()
+	switch sc.Target {
+	case "http":
+		h := graphql.HTTPHandler(schema)
+		f = func() {
+			req, _ := http.NewRequest("POST", "/graphql", strings.NewReader(`{"query":`+jsonString(query)+`,"variables":{}}`))
+			rr := httptest.NewRecorder()
+			h.ServeHTTP(rr, req.WithContext(ctx))
+			var body struct {
+				Errors []string `json:"errors"`
+			}
+			if json.Unmarshal(rr.Body.Bytes(), &body) == nil && len(body.Errors) > 0 {
+				atomic.StoreInt32(&failed, 1)
+			}
+			detail.Store(vlib.Trunc(rr.Body.String(), 300))
+		}
+	case "fedserver":
+		q, err := graphql.Parse(query, nil)
+		if err != nil {
+			run.Broken("m4: " + err.Error())
+			return
+		}
+		m, err := federation.MarshalQuery(q)
+		if err != nil {
+			run.Broken("m4: " + err.Error())
+			return
+		}
+		ex := graphql.NewExecutor(graphql.NewImmediateGoroutineScheduler())
+		f = func() {
+			resp, err := federation.ExecuteRequest(ctx, &thunderpb.ExecuteRequest{Query: m}, schema, ex)
+			if err != nil {
+				atomic.StoreInt32(&failed, 1)
+				detail.Store(vlib.Trunc(err.Error(), 300))
+			} else {
+				detail.Store(vlib.Trunc(string(resp.Result), 300))
+			}
+		}
+	case "rerunner_execute": // the bare executor under a rerunner, as every entry point runs it
+		q, err := graphql.Parse(query, nil)
+		if err == nil {
+			err = graphql.PrepareQuery(ctx, schema.Query, q.SelectionSet)
+		}
+		if err != nil {
+			run.Broken("m4: " + err.Error())
+			return
+		}
+		ex := graphql.NewExecutor(graphql.NewImmediateGoroutineScheduler())
+		f = func() {
+			done := make(chan error, 1)
+			var once sync.Once
+			r := reactive.NewRerunner(ctx, func(ctx context.Context) (interface{}, error) {
+				v, err := ex.Execute(batch.WithBatching(ctx), schema.Query, nil, q)
+				once.Do(func() { done <- err })
+				if err != nil {
+					return nil, err
+				}
+				return v, nil
+			}, time.Hour, false)
+			err := <-done
+			r.Stop()
+			if err != nil {
+				atomic.StoreInt32(&failed, 1)
+				detail.Store(vlib.Trunc(err.Error(), 300))
+			}
+		}
+	}
+	activity := func() int64 { return atomic.LoadInt64(&st.entries) }
+	status, rec := callGuarded(sc.Target, activity, time.Second, 10*time.Second, 0, f)
+	wit := func(what string) map[string]interface{} {
+		d, _ := detail.Load().(string)
+		return map[string]interface{}{"monitor": "4 cancellation and leaks (panic under a shared cache key, no cancellation)", "scenario": sc.String(), "target": sc.Target,
+			"query": query, "panic_kind": st.kind, "what": what, "resolver_entries": atomic.LoadInt64(&st.entries), "resolver_panics": atomic.LoadInt64(&st.panics),
+			"observed": d, "expected": "the request fails with an error, returns, and leaves no goroutine behind"}
+	}
+	remember := func() {
+		for _, g := range vlib.ThunderGoroutines(base...) {
+			if m := goroutineHeader.FindStringSubmatch(g); m != nil {
+				e.ignore = append(e.ignore, "goroutine "+m[1]+" [")
+			}
+		}
+	}
+	switch status {
+	case callPanicked:
+		w := wit("a panic escaped the call")
+		w["panic"], w["stack"] = rec.Value, rec.Stack
+		run.Violation(caseIdx, "", w)
+		return
+	case callHung:
+		w := wit("the call did not return and the process went quiet")
+		w["stacks"] = thunderStacks(base)
+		run.Count("m4:hangs", 1)
+		run.Violation(caseIdx, "", w)
+		remember()
+		return
+	case callUndecided:
+		run.Inconclusive(fmt.Sprintf("m4 case %d (%s): still busy at the hard deadline", caseIdx, sc.String()))
+		return
+	}
+	if atomic.LoadInt64(&st.panics) == 0 {
+		run.Inconclusive(fmt.Sprintf("m4 case %d (%s): the panicking resolver was never entered", caseIdx, sc.String()))
+	} else if atomic.LoadInt32(&failed) == 0 {
+		run.Violation(caseIdx, "", wit("a resolver panicked but the request did not fail with an error"))
+	}
+	if left := vlib.WaitNoThunderGoroutines(100, base...); len(left) > 0 {
+		w := wit(fmt.Sprintf("%d goroutine(s) with a thunder frame are still alive 100 settle polls after the call returned", len(left)))
+		for i := range left {
+			left[i] = vlib.Trunc(left[i], 2500)
+		}
+		if len(left) > 8 {
+			left = left[:8]
+		}
+		w["leaked_goroutines"] = left
+		run.Violation(caseIdx, "", w)
+		remember()
+	}
 }
 
 func (e *m4Env) runScenario(run *vlib.Run, caseIdx int, sc m4Scenario) {
